@@ -38,7 +38,7 @@ class StmtMixin:
             raise EngineError(f'path explosion (> {self.max_paths} live paths)')
 
     def exec_stmt(self, s, st):
-        self.executed_nodes.add(id(s))     # reached on a feasible path (branches are pruned eagerly): dead-code-under-contract report
+        self.executed_nodes.add(id(s)); self.executed_all.add(id(s))     # reached on a feasible path (branches are pruned eagerly): dead-code-under-contract report
         m = getattr(self, 'ex_' + type(s).__name__, None)
         if m is None:
             raise EngineError(f'statement {type(s).__name__} at line {s.lineno}')
